@@ -496,3 +496,61 @@ func r12walkX(c *core.Ctx, std map[int64]int64, half map[int64]bool, pduIEI int6
 	c.Check(okAddr, R, K+"pdu-address-at-cursor", fn.Pos(), fmt.Sprintf("IEI %#02x at the cursor ⇒ the 4 octets at cursor+3", pduIEI), "the IPv4 address is the 4 octets after IEI, length and PDU session type octet of the element whose identifier is %#02x; the code returns %s", pduIEI, clip(gotAddr))
 	return true
 }
+
+// r12offX: the layout of the mandatory part, read off where the optional-element walk starts: the
+// element at cursor 0 sits at (security header + DL NAS TRANSPORT header + mandatory part of the
+// Accept + session AMBR) + (QoS rules length), the length being the big-endian word at its place in
+// the Accept. Used when the slices of the mandatory part are no longer found in the extractor itself
+// (moved into a helper); decides the same positions from the arithmetic the code performs.
+func r12offX(c *core.Ctx, R string, wantConst, qosLenAt, pduIEI int64) bool {
+	fn := mustFunc(c, pStg, "DecodePDUSessionNASPDU")
+	ex, _, err := loopWalk(fn)
+	if err != nil || len(ex.Unsound) > 0 || len(ex.Iters) == 0 {
+		return false
+	}
+	cur := cursorOf(ex.Iters)
+	if cur == "" {
+		return false
+	}
+	sym := nm(ex.Iters[0].Sym[cur])
+	var fs []map[string][2]uint64
+	for _, it := range ex.Iters {
+		fs = append(fs, it.Facts)
+	}
+	w := findWalkPos(sym, fs...)
+	if w == nil {
+		return false
+	}
+	init, okI := ex.Iters[0].Init[cur].ConstVal()
+	// flatten operands that are themselves sums at a narrower width (5+2+QoSRulesLength+7 in uint16)
+	total := w.baseC
+	var leaves []string
+	for t, k := range w.baseT {
+		if k != 1 {
+			return false
+		}
+		cc, terms, ok := core.LinFormOfName(t, 16)
+		if ok && (cc != 0 || len(terms) != 1 || terms[t] != 1) {
+			total += cc
+			for n, kk := range terms {
+				if kk != 1 {
+					return false
+				}
+				leaves = append(leaves, n)
+			}
+			continue
+		}
+		leaves = append(leaves, t)
+	}
+	okLen := false
+	gotLen := strings.Join(leaves, " + ")
+	if len(leaves) == 1 {
+		want := fmt.Sprintf("{[15:8]=p0[%d][7:0] [7:0]=p0[%d][7:0]}", qosLenAt, qosLenAt+1)
+		okLen = leaves[0] == want
+	}
+	c.Check(okI && init == 0 && total == wantConst && okLen, R, "stgutg.DecodePDUSessionNASPDU:optional-part-start", fn.Pos(),
+		fmt.Sprintf("first optional element at octet %d + the QoS rules length read at octets %d..%d", wantConst, qosLenAt, qosLenAt+1),
+		"the optional IEs start after the security header, the DL NAS TRANSPORT header, the mandatory part of the Accept, the QoS rules and the session AMBR: octet %d + the QoS rules length (big-endian word at octets %d..%d); the code starts the walk at %d + %s (cursor from %d)", wantConst, qosLenAt, qosLenAt+1, total, clip(gotLen), init)
+	c.Note("R12.off: the mandatory-part slices of DecodePDUSessionNASPDU were not found in the function itself; the layout was read off the start of the optional-element walk (payload-container bounds are not decided in this form)")
+	return true
+}
